@@ -50,3 +50,50 @@ void bad_sm_red__unreduced__ep_mul_st(ep_t r, const ep_t p, const bn_t k) {
 	bn_rec_naf(naf, &l, m, 2);
 	ep_norm(r, p);
 }
+
+void ok_rbw(ep_t r, const ep_t p) {
+	fp_t t;
+	fp_null(t);
+	fp_new(t);
+	fp_inv(r->z, p->z);
+	fp_sqr(t, r->z);
+	fp_mul(r->x, p->x, t);
+	fp_mul(t, t, r->z);
+	fp_mul(r->y, p->y, t);
+	fp_set_dig(r->z, 1);
+	r->coord = BASIC;
+	fp_free(t);
+}
+
+/* the output's own coordinates are scaled instead of the input's */
+void bad_out_rbw__own(ep_t r, const ep_t p) {
+	fp_t t;
+	fp_null(t);
+	fp_new(t);
+	fp_inv(r->z, p->z);
+	fp_sqr(t, r->z);
+	fp_mul(r->x, r->x, t);
+	fp_mul(t, t, r->z);
+	fp_mul(r->y, p->y, t);
+	fp_set_dig(r->z, 1);
+	r->coord = BASIC;
+	fp_free(t);
+}
+
+/* the sign of the second scalar is taken from the first */
+void bad_sm_sign__second__ep_mul_sim_z(ep_t r, const ep_t p, const bn_t k, const ep_t q, const bn_t m) {
+	ep_t t, u;
+	ep_null(t); ep_null(u);
+	ep_new(t); ep_new(u);
+	ep_copy(t, p);
+	if (bn_sign(k) == RLC_NEG) {
+		ep_neg(t, t);
+	}
+	ep_copy(u, q);
+	if (bn_sign(k) == RLC_NEG) {
+		ep_neg(u, u);
+	}
+	ep_add(r, t, u);
+	ep_norm(r, r);
+	ep_free(t); ep_free(u);
+}
